@@ -68,15 +68,16 @@ Step ==
             LET t == r.task
                 fin == Get(runEnd, t)
                 st == Get(stored, t)
+                tr == IF "tr" \in DOMAIN r THEN r.tr ELSE r.t   \* when the join came back (not when the record was written)
                 b1 == r.out = "ok" /\ ~(t \in ranOk /\ r.v = 1000 + t)
                 b2 == r.out = "err" /\ ~(fin >= 0 /\ t \notin ranOk /\ r.v = t)
                 b3 == r.out \in {"ok", "err"} /\ st >= 0 /\ r.limit >= 200 /\ r.ms * 2 > r.limit
-                      /\ r.t - st > (r.limit * 1000) \div 2
-                b4 == r.out = "timeout" /\ fin >= 0 /\ fin + 50000 < r.t
+                      /\ tr - st > (r.limit * 1000) \div 2
+                b4 == r.out = "timeout" /\ fin >= 0 /\ fin + 50000 < tr
             IN /\ (b1 => Viol("wrong_result", <<t, r.out, r.v>>))
                /\ (b2 => Viol("wrong_result", <<t, r.out, r.v>>))
                /\ (b3 => Viol("late_join", <<t, r.ms, r.limit>>))
-               /\ (b4 => Viol("join_timeout_finished", <<t, r.ms, (r.t - fin) \div 1000>>))
+               /\ (b4 => Viol("join_timeout_finished", <<t, r.ms, (tr - fin) \div 1000>>))
                /\ nviol' = nviol + Count(b1) + Count(b2) + Count(b3) + Count(b4)
                /\ UNCHANGED <<scen, ntasks, accepted, ran, ranOk, runEnd, stored, twice, stopOkAt, hung, stopped, sleepB, sleepE>>
        [] ev = "stop_b" -> stopped' = TRUE
